@@ -165,6 +165,18 @@ def run(m: Model, r: Report, tier: str) -> None:
             "check_and_set_session can report the expected session without asking the ECU (read_session): a silent fall-back of the ECU to the default "
             "session is then never noticed and the remaining probes are reported under the wrong session: " + " -> ".join(repr(gc.nodes[p_]) for p_ in path[-4:]), loc=cs.loc)
 
+    sets_ = [n.id for n in gc.nodes.values() if n.kind == "stmt" and n.ast is not None and "self.set_session(" in ast.unparse(n.ast)]
+    for sn in sets_:
+        oks, pths = gc.must_pass(sn, reads_, trues_)
+        r.check(oks, "R5", f"{cs.qualname}#re-reads-after-switching",
+                "after trying to switch the session, success is reported without reading the session back from the ECU (a positive DiagnosticSessionControl "
+                "response is not proof: the ECU may acknowledge without switching): " + " -> ".join(repr(gc.nodes[p_]) for p_ in pths[-4:]), loc=cs.loc)
+
+    from sa.uds_rules import busy_last_attempt
+    from sa.util import check_unravel_inclusive
+    busy_last_attempt(m, r, "R4")
+    check_unravel_inclusive(m, r, "R9")
+
     # ---------------------------------------------------------------- R6-R8
     pi = m.require_function(f"{IDS}.ScanIdentifiers.perform_scan")
     loops = [n for n in walk_no_nested(pi.node) if isinstance(n, ast.For) and "product(" in ast.unparse(n.iter)]
@@ -202,6 +214,26 @@ def run(m: Model, r: Report, tier: str) -> None:
         r.check(okp, "R7", f"{pi.qualname}#routine-sub-functions-always",
                 "for service RoutineControl the identifier loop is reachable without the sub-function list being set to all RoutineControlSubFuncs "
                 "(e.g. only when no payload is given): " + " -> ".join(repr(gi.nodes[p_]) for p_ in path[-4:]), loc=pi.loc)
+    # every (identifier, sub-function) pair of the domain is probed unless the skip map excludes it
+    if loops:
+        probe_ln = min((n.lineno for n in ast.walk(loops[0]) if isinstance(n, ast.Call) and isinstance(n.func, ast.Attribute) and n.func.attr in ("send_raw", "request", "request_unsafe")), default=None)
+        if probe_ln is None:
+            raise AnalysisError(f"{pi.qualname}: probe request not found in the identifier loop")
+        early = []
+        def _walk(stmts, guards):
+            for st in stmts:
+                if st.lineno >= probe_ln:
+                    continue
+                if isinstance(st, ast.Continue) and not any("self.config.skip" in g_ for g_ in guards):
+                    early.append(f"line {st.lineno} under {guards[-1] if guards else 'no condition'}")
+                if isinstance(st, ast.If):
+                    _walk(st.body, guards + [ast.unparse(st.test)])
+                    _walk(st.orelse, guards + ["not (" + ast.unparse(st.test) + ")"])
+                elif isinstance(st, (ast.Try, ast.With, ast.AsyncWith)):
+                    _walk(getattr(st, "body", []), guards)
+        _walk(loops[0].body, [])
+        r.check(not early, "R6", f"{pi.qualname}#every-pair-probed",
+                f"identifier / sub-function pairs are skipped without being excluded by the skip map: {early}", loc=pi.loc)
     ibreaks = [n for n in ast.walk(loops[0]) if isinstance(n, ast.Break)] if loops else []
     okbr = all(any(isinstance(a, ast.If) and ast.unparse(a.test) == "self.config.skip_not_supported" and n in a.body for a in ast.walk(loops[0])) for n in ibreaks)
     r.check(okbr and len(ibreaks) <= 1, "R6", f"{pi.qualname}#no-early-end", "the identifier loop may only be left early under --skip-not-supported", loc=pi.loc)
